@@ -108,7 +108,7 @@ def run_replay_file(repo_copy, target_dir, log_dir, rpath, already_injected):
     worst = "not_reproduced"
     details = []
     for n in names:
-        for release in (False, True):
+        for release in (False,):   # `cargo kani playback` of Kani 0.68 has no --release: the dev profile (the one Kani models) is replayed
             v, d = kani.run_playback_test(repo_copy, mod["pkg"], mod.get("features", ""), target_dir, n,
                                           os.path.join(log_dir, "playback_%s%s.log" % (n, "_release" if release else "")),
                                           timeout=1800, release=release)
